@@ -39,7 +39,7 @@ def showDlg (d : Dlg) : String := s!"{d.date}:{d.top}:{d.peer}"
 def showDOut (o : DOut) : String :=
   let ys := o.yields.map showDlg
   let rs := o.reqs.map (fun (d, l) => s!"{showDlg d}:{l}")
-  s!"y={if ys.isEmpty then "-" else ",".intercalate ys} r={if rs.isEmpty then "-" else ",".intercalate rs} done={if o.done then 1 else 0}"
+  s!"y={if ys.isEmpty then "-" else ",".intercalate ys} r={if rs.isEmpty then "-" else ",".intercalate rs} done={if o.done then 1 else 0} err={if o.err then 1 else 0}"
 
 def handle (line : String) : String :=
   match words line with
@@ -67,10 +67,11 @@ def handle (line : String) : String :=
         let rs := o.reqs.map (fun (a, b) => s!"{a}:{b}")
         s!"y={showNats o.yields} r={if rs.isEmpty then "-" else ",".intercalate rs} done={if o.done then 1 else 0}"
     | _, _, _, _, _ => "bad-op"
-  | ["dlg", limit, cap, fuel, kinds, ds] =>
-    match limit.toNat?, cap.toNat?, fuel.toNat?, parseKinds kinds, parseDlgs ds with
-    | some l, some cap, some f, some ks, some d => showDOut (drun d f ks cap (DIter.init l))
-    | _, _, _, _, _ => "bad-op"
+  | ["dlg", limit, cap, fuel, kinds, ds, noent] =>
+    match limit.toNat?, cap.toNat?, fuel.toNat?, parseKinds kinds, parseDlgs ds, parseNats noent with
+    | some l, some cap, some f, some ks, some d, some ne =>
+      showDOut (drun d f ks cap { DIter.init l with noEntity := ne })
+    | _, _, _, _, _, _ => "bad-op"
   | _ => "bad-op"
 
 def main : IO Unit := runDriver handle
